@@ -62,6 +62,37 @@ Proof.
   intros y Hy. rewrite Rmult_1_l. apply Hpos. lra.
 Qed.
 
+(* the cosine series integrates to A_0 over its window: only the k = 0 term has mass (sin(k pi) = 0 for integer k) *)
+Lemma cos_sum_only_first n A V : V 0%nat = 2 -> (forall k, V (S k) = 0) -> cos_sum n A V = A 0%nat.
+Proof.
+  intros H0 HS. unfold cos_sum. induction n as [|n IH]; simpl.
+  - rewrite H0. unfold cos_weight. field.
+  - rewrite IH, HS. ring.
+Qed.
+Lemma sin_INR_PI k : sin (INR k * PI) = 0.
+Proof. apply sin_eq_0_1. exists (Z.of_nat k). rewrite INR_IZR_INZ. reflexivity. Qed.
+Lemma density_integrates_to_A0 (A : nat -> R) a b n : b <> a ->
+  is_RInt (fun y => cos_density n A a b y) a b (A 0%nat).
+Proof.
+  intro Hab.
+  set (V := fun k : nat => match k with O => 2 | S _ => 0 end).
+  rewrite <- (cos_sum_only_first n A V eq_refl (fun _ => eq_refl)).
+  apply (is_RInt_ext (fun y => 1 * cos_density n A a b y)); [intros y _; simpl; ring|].
+  apply cos_sum_is_integral. intro k.
+  assert (Hv : cos_psi 0 (INR k) a b a b = match k with O => b - a | S _ => 0 end).
+  { destruct k as [|k].
+    - simpl INR. apply cos_psi_zero.
+    - rewrite cos_psi_nonzero by (apply not_0_INR; discriminate).
+      unfold psi_prim. replace (INR (S k) * PI / (b - a) * (b - a)) with (INR (S k) * PI) by (field; lra).
+      rewrite sin_INR_PI. replace (INR (S k) * PI / (b - a) * (a - a)) with 0 by ring. rewrite sin_0. unfold Rdiv. ring. }
+  pose proof (psi_coefficient 0 (INR k) a b a b Hab) as H.
+  apply (@is_RInt_scal R_NormedModule _ _ _ (2 / (b - a))) in H.
+  replace (V k) with (scal (2 / (b - a)) (cos_psi 0 (INR k) a b a b)).
+  - apply (is_RInt_ext (fun y => scal (2 / (b - a)) (cosk (INR k) a b y))); [|exact H].
+    intros y _. unfold scal; simpl. unfold mult; simpl. ring.
+  - rewrite Hv. unfold scal; simpl; unfold mult; simpl. destruct k; unfold V; field; lra.
+Qed.
+
 (* COSPricer.density is the cosine series with the density numbers B_k on the window shifted by log_spot, divided by s *)
 Lemma cos_density_impl_eq n B a b x0 s : cos_density_impl n B a b x0 s = cos_density n B (a + x0) (b + x0) (ln s) / s.
 Proof.
